@@ -15,7 +15,8 @@ only at exhaustion), C15.P-order (within an arm no CFG path from a COMPLETE- or 
 call, nor from a STABLE-class call to a COMPLETE-class call), C15.Y-clap (for every argument id the value type of an
 explicit value_parser - normalised <P as TypedValueParser>::Value - equals the type requested by remove_one/get_one for
 the same id), S.P-parse (malformed input: exit through panic before any print), C08.A-alphabet (the default library mode
-must accept every label the parser accepts), C10.F-print (T/F/u and the statement's own name), and - since the printed sets are the
+must accept every label the parser accepts), C10.F-print (T/F/u and the statement's own name), C10.P-cli (no sort call after an ADF construction: the names would be permuted against the
+conditions), and - since the printed sets are the
 library's answers - the complete rule suites of C01-C05 including their dependency suites (rules/deps.py), evaluated for the library
 configuration the binary links (quick: default features; thorough: the three counting configurations)."""
 NOT_DECIDED = "stdout equals the definitional sets (needs C01-C05 behaviourally); behaviour for flag/mode combinations the documentation marks unsupported; clap's runtime beyond definition/access typing."
@@ -279,6 +280,7 @@ def check(ctx):
         A_arms(ctx, bin_)
         Y_clap(ctx, bin_)
         C08.P_parse(ctx, bin_, floor=3, key_prefix="bin:")
+        C10.P_cli(ctx, bin_)      # sorting after an ADF was built relabels the printed statements
     ctx.cfg = "lib@default"
     lib = ctx.load(facts.Config("lib"))
     C08.A_alphabet(ctx, lib)
